@@ -172,12 +172,28 @@ impl Prop for C07 {
         let mut case = Case::new("C07", cfg, ops);
         case.params.insert("cross".into(), i64::from(run % 8 == 0));
         case.params.insert("decoy_seed".into(), (rng.u64() >> 1) as i64);
+        // one run in three: the writer configuration reaches the same layers and keys by another ROUTE of its builder
+        if rng.chance(1, 3) {
+            case.params.insert("cfg_route".into(), rng.range(1, 4) as i64);
+        }
         case
     }
     fn exec(&self, case: &Case, ctx: &mut Ctx) -> Vec<Violation> {
         let mut v = Vec::new();
         let s = sut(&case.cfg.variant);
         let model = model_of(&case.ops);
+        struct Route;
+        impl Drop for Route {
+            fn drop(&mut self) {
+                crate::seams::set_cfg_route(0);
+            }
+        }
+        let _route = Route;
+        let route = case.param("cfg_route", 0) as u8;
+        crate::seams::set_cfg_route(route);
+        if route != 0 {
+            crate::seams::fired("config_built_by_another_route");
+        }
         let mut keys = BTreeSet::new();
         let mut nonces = BTreeSet::new();
         let mut ephs = BTreeSet::new();
